@@ -6,8 +6,9 @@ Go facts mirrored here:
   (oldest at the front), an `index` map offset → list element, an `epoch` string generated at
   creation and a `version` pair `(Version, Epoch)`;
 * `Add(v, size, version, versionEpoch)` increments `top`, pushes `Item{top, v}` at the back, drops
-  elements from the front while the list is longer than `size`, and **overwrites** the version pair
-  with the arguments (also with `0, ""` for an unversioned publish);
+  elements from the front while the list is longer than `size`, and sets the version pair to the
+  arguments **when `version > 0`**; an unversioned publish (`version == 0`) keeps the pair the
+  stream already holds (since /repo commit a5ec69f4; before that it was overwritten with `0, ""`);
 * `Clear` empties list and index and keeps `top`, `epoch` and the version pair;
   `Reset` additionally sets `top = 0` and takes a new epoch;
 * `Get(offset, useOffset, limit, reverse)`:
@@ -53,7 +54,8 @@ def MStream.add (s : MStream α) (v : α) (size : Nat) (version : Nat) (versionE
   let top := s.top + 1
   let l := s.items ++ [{ offset := top, value := v }]
   ({ s with top := top, items := l.drop (l.length - size),
-            topVersion := version, topVersionEpoch := versionEpoch }, top)
+            topVersion := if version > 0 then version else s.topVersion,
+            topVersionEpoch := if version > 0 then versionEpoch else s.topVersionEpoch }, top)
 
 /-- `Stream.Clear` -/
 def MStream.clear (s : MStream α) : MStream α := { s with items := [] }
